@@ -3,6 +3,7 @@
 #ifndef VERIF_RB_PRELUDE_H
 #define VERIF_RB_PRELUDE_H
 #include "elem.h"
+_Bool nondet_bool(void);
 
 #ifndef CAP_MAX
 #define CAP_MAX ((size_t)1 << 30)
@@ -12,6 +13,17 @@
  * copied explicitly; every other byte of the new block is left nondeterministic, which
  * over-approximates the real function (the watched index is arbitrary). */
 static void *verif_realloc(void *old, size_t n) {
+  if (n == 0 && old != 0 && nondet_bool()) {
+    /* realloc(p, 0) is implementation-defined: glibc frees p and returns NULL */
+    g_frees++;
+    if (__CPROVER_POINTER_OBJECT(old) == g_wobj) {
+      if (g_wp < __CPROVER_OBJECT_SIZE(old) / sizeof(struct Elem))
+        __CPROVER_assert(((struct Elem *)old)[g_wp].life != LIVE, "C09 no live element is cut off by realloc");
+      g_freed_w = 1;
+    }
+    free(old);
+    return 0;
+  }
   void *p = malloc(n);
   __CPROVER_assume(p != 0);
   g_newobj = __CPROVER_POINTER_OBJECT(p);
